@@ -581,3 +581,12 @@ def m1(ctx):
 def p4(ctx):
     from .c16 import opaque_name_obligations
     return opaque_name_obligations(ctx)
+
+
+@rule("C03", "P5", floor=4, kind="N",
+      desc="the etag argument of the store API is always evaluated: _check_duplicate (which compares replace_etag) "
+           "completes before every mutation of import_one on every path - also for objects without a UID (the dominance "
+           "obligations of C06/U1)")
+def p5(ctx):
+    from .c06 import u1
+    return [o for o in u1(ctx) if o.detail.startswith("_check_duplicate dominates") or o.detail == "calls _check_duplicate"]
